@@ -235,3 +235,137 @@ def gen_leaf(rng, tier='quick', classes=None, n=None, with_cbounds=None):
 def leaf_flow(rng, d, mode=None):
   lb = [F(x) for x in d['lb']]; hb = [F(x) for x in d['hb']]
   return [fs(x) for x in gen_flow(rng, lb, hb, mode)]
+
+
+# ---------------------------------------------------------------- trees
+def gen_ucons(rng, n, lb, hb):
+  """user constraints of an ADevice as data: w.x + c >= 0 / == 0."""
+  out = []
+  for _ in range(rng.randint(1, 2)):
+    w = [dy(rng, -2, 2) for _ in range(n)]
+    mid = sum((wi*(a + b)/2 for wi, a, b in zip(w, lb, hb)), F(0))
+    out.append({'type': rng.choice(['ineq', 'ineq', 'eq']), 'w': [fs(x) for x in w], 'c': fs(-mid + dy(rng, 0, 2)), 'n': n,
+                'jac': rng.random() < 0.8})
+  return out
+
+
+def gen_tree(rng, tier='quick', n=None, depth=None, want_mf=None):
+  n = n or pick_n(rng, tier, 6 if tier == 'quick' else 10)
+  depth = depth if depth is not None else rng.choice([1, 2, 2, 3])
+  counter = [0]
+  def fresh(prefix):
+    counter[0] += 1
+    return '%s%d' % (prefix, counter[0])
+  def leaf():
+    cls = rng.choice(['Device', 'CDevice', 'CDevice2', 'IDevice', 'IDevice2', 'GDevice', 'PVDevice', 'SDevice', 'TDevice', 'ADevice'])
+    d = gen_leaf(rng, tier, [cls], n=n)
+    if cls == 'ADevice' and rng.random() < 0.5:
+      d['ucons'] = gen_ucons(rng, n, [F(x) for x in d['lb']], [F(x) for x in d['hb']])
+    return {'k': 'leaf', 'id': fresh(rng.choice(['a', 'b', 'e', 'h'])), 'dev': d}
+  def mf():
+    cls = rng.choice(['Device', 'CDevice', 'CDevice2', 'IDevice', 'IDevice2', 'GDevice', 'PVDevice', 'ADevice'])
+    d = gen_leaf(rng, tier, [cls], n=n)
+    lb = [F(x) for x in d['lb']]; hb = [F(x) for x in d['hb']]
+    if any(x < 0 for x in lb) and any(x > 0 for x in hb):   # make it one-directional
+      d = gen_leaf(rng, tier, ['IDevice2'], n=n)
+    if d['cls'] == 'ADevice' and rng.random() < 0.5:
+      d['ucons'] = gen_ucons(rng, n, [F(x) for x in d['lb']], [F(x) for x in d['hb']])
+    k = rng.choice([1, 2, 2, 3])
+    flows = ['e', 'h', 'g'][:k]
+    t = {'k': 'mf', 'id': fresh('m'), 'dev': d, 'flows': flows, 'ratios': None}
+    if k == 2 and rng.random() < 0.4:
+      t['ratios'] = [fs(dy(rng, 1, 3)), fs(dy(rng, 1, 3))]
+      t['ctype'] = rng.choice(['eq', 'ineq'])
+    return t
+  def node(dep, root=False):
+    kids = []
+    for _ in range(rng.randint(1 if not root else 2, 3)):
+      r = rng.random()
+      if dep > 1 and r < 0.4:
+        kids.append(node(dep - 1))
+      elif r < 0.6 and (want_mf is not False):
+        kids.append(mf())
+      else:
+        kids.append(leaf())
+    t = {'k': 'node', 'id': fresh('s') if not root else 'root', 'sb': None, 'ch': kids, 'sub': False}
+    r = rng.random()
+    if r < 0.6:
+      sb = []
+      base = (dy(rng, -6, 0), dy(rng, 0, 8))
+      for i in range(n):
+        q = rng.random()
+        if q < 0.25:
+          v = dy(rng, -2, 4); sb.append([fs(v), fs(v)])
+        elif q < 0.6:
+          sb.append([fs(base[0]), fs(base[1])])
+        else:
+          a = dy(rng, -6, 2); sb.append([fs(a), fs(a + dy(rng, 0, 6))])
+      t['sb'] = sb
+    if rng.random() < 0.35:
+      t['sub'] = True
+      t['labels'] = rng.sample(['e', 'h', 'g', '1', '2'], rng.randint(1, 2))
+      t['ctype'] = rng.choice(['eq', 'ineq'])
+      t['sign'] = rng.choice(['1', '-1', '1'])
+      t['rem'] = rng.random() < 0.4
+    return t
+  t = node(depth, root=True)
+  if want_mf and not tree_has(t, 'mf'):
+    t['ch'].append(mf())
+  return t, n
+
+
+def tree_has(t, kind):
+  if t['k'] == kind:
+    return True
+  return any(tree_has(c, kind) for c in t.get('ch', []))
+
+
+def tree_rows(t):
+  if t['k'] == 'leaf': return 1
+  if t['k'] == 'mf': return len(t['flows'])
+  return sum(tree_rows(c) for c in t['ch'])
+
+
+def tree_depth(t):
+  return 1 + max([tree_depth(c) for c in t.get('ch', [])] or [0]) if t['k'] == 'node' else 0
+
+
+def tree_leaves(t):
+  """(description, number of rows) of every block, in row order."""
+  if t['k'] in ('leaf', 'mf'):
+    return [t]
+  out = []
+  for c in t['ch']:
+    out += tree_leaves(c)
+  return out
+
+
+def tree_box(t, n):
+  """row-major (lb, hb) of the flat bounds the tree should report (from the leaf descriptions)."""
+  lb, hb = [], []
+  for b in tree_leaves(t):
+    d = b['dev']
+    l = [F(x) for x in d['lb']]; h = [F(x) for x in d['hb']]
+    if b['k'] == 'leaf':
+      lb += l; hb += h
+    else:
+      neg = any(x < 0 for x in l)
+      for _ in b['flows']:
+        lb += (l if neg else [F(0)]*n); hb += ([F(0)]*n if neg else h)
+  return lb, hb
+
+
+def tree_flow(rng, t, n, mode=None):
+  lb, hb = tree_box(t, n)
+  flat = gen_flow(rng, lb, hb, mode)
+  R = tree_rows(t)
+  return [[fs(x) for x in flat[r*n:(r + 1)*n]] for r in range(R)]
+
+
+def gen_price_mat(rng, R, n):
+  q = rng.random()
+  if q < 0.3:
+    return fs(dy(rng, -3, 3, 3))
+  if q < 0.6:
+    return [fs(dy(rng, -3, 3, 3)) for _ in range(n)]
+  return [[fs(dy(rng, -3, 3, 3)) for _ in range(n)] for _ in range(R)]
